@@ -18,7 +18,7 @@ from mc.core import Result
 ID = "C11"
 LEVEL = "exploration"
 RULE = (
-    "schedules: ordered sequences of <= 3 (quick: <= 2 plus a reduced set of 3) elements, each a single leaf or a parallel of 2..3 "
+    "schedules: ordered sequences of <= 3 (quick: <= 2 plus a reduced set of 3) elements, each a single leaf or a parallel of 1..3 "
     "leaves drawn without repetition from 5 prototypes (names a, b, ab, d, x; types bulk/search/raw-request; tags ['x'], 'xy' as a "
     "plain string, ['x','y','search'], none, 'x' as a string: a name that is also a tag and a tag that is also a type), parallel elements "
     "with derived and with explicit clients, in the first or second challenge of a track; filter lists: every list of 1..2 of "
@@ -41,6 +41,9 @@ LEAVES = {
     "d": ("d", "raw-request", None, 3),
     "x": ("x", "bulk", "x", 1),  # its name equals a tag value
 }
+# the second challenge: an unrelated task and a task that equals leaf "a" of the first challenge (name, operation, settings) except for its
+# tags -- decisions must be made per task, not per "equal" task
+OTHER = [("zz-other", "search", ["x"], 1), ("a", "bulk", ["y"], 2)]
 FILTERS = ["a", "b", "ab", "d", "x", "zz", "type:bulk", "type:search", "type:raw-request", "type:composite", "tag:x", "tag:y", "tag:xy", "tag:z", "tag:search"]
 MALFORMED = ["foo:bar", "a:b:c", "tags:x"]
 
@@ -55,11 +58,16 @@ def matches(flt, leaf):
     return flt == name
 
 
+def names(el):
+    """leaf names of a schedule element; an element (n, "") is a parallel element with the single sub-task n"""
+    return [n for n in el if n]
+
+
 def schedule_specs(tier):
-    names = list(LEAVES)
-    elements = [(n,) for n in names]
+    leafs = list(LEAVES)
+    elements = [(n,) for n in leafs] + [(n, "") for n in leafs]
     for k in (2, 3):
-        elements += list(itertools.permutations(names, k))
+        elements += list(itertools.permutations(leafs, k))
     out = []
 
     def rec(prefix, used, depth):
@@ -68,9 +76,9 @@ def schedule_specs(tier):
         if depth == 0:
             return
         for el in elements:
-            if used & set(el):
+            if used & set(names(el)):
                 continue
-            rec(prefix + [el], used | set(el), depth - 1)
+            rec(prefix + [el], used | set(names(el)), depth - 1)
 
     rec([], set(), 3 if tier == "thorough" else 2)
     if tier == "quick":
@@ -101,12 +109,16 @@ def build_track(spec, challenge_pos, capped=False):
             schedule.append(t)
         else:
             ts = []
-            for n in el:
+            for n in names(el):
                 t = leaf(n)
                 objs[n] = t
                 ts.append(t)
             schedule.append(track.Parallel(ts, clients=cap_of(el, capped)))
-    other = [sc.mk_task("zz-other", op_type="search", tags=["x"])]
+    other = []
+    for oname, otyp, otags, oclients in OTHER:
+        t = sc.mk_task(oname, clients=oclients, op_type=otyp, tags=list(otags) if isinstance(otags, list) else otags)
+        t.iterations = 1
+        other.append(t)
     c_main = track.Challenge("main", default=challenge_pos == 0, schedule=schedule)
     c_other = track.Challenge("other", default=challenge_pos != 0, schedule=other)
     chs = [c_main, c_other] if challenge_pos == 0 else [c_other, c_main]
@@ -134,8 +146,8 @@ def check_case(spec, flts, exclude, challenge_pos, res, capped=False):
     except Exception as e:  # noqa
         v = ("raises", f"{type(e).__name__}: {e}")
         out = None
-    sel = {n: any(matches(f, n) for f in flts) != exclude for el in spec for n in el}
-    want = [[n for n in el if sel[n]] for el in spec]
+    sel = {n: any(matches(f, n) for f in flts) != exclude for el in spec for n in names(el)}
+    want = [[n for n in names(el) if sel[n]] for el in spec]
     want = [el for el in want if el]
     if v is None:
         got = []
@@ -154,7 +166,7 @@ def check_case(spec, flts, exclude, challenge_pos, res, capped=False):
             v = ("wrong-selection", f"filtered schedule {got}, expected {want} (kept but not selected: {extra}; selected but missing: {missing})")
         else:
             # identity, order, unchanged attributes; parallel elements stay parallel (even with one task left) and keep their cap
-            want_src = [el for el in spec if any(sel[n] for n in el)]
+            want_src = [el for el in spec if any(sel[n] for n in names(el))]
             for el, wel, src in zip(c_main.schedule, want, want_src):
                 ts = el.tasks if isinstance(el, track.Parallel) else [el]
                 if isinstance(el, track.Parallel) != (len(src) > 1):
@@ -168,10 +180,14 @@ def check_case(spec, flts, exclude, challenge_pos, res, capped=False):
                         diff = {a: (before[n][a], b) for a, b in snapshot(t).items() if before[n].get(a) != b}
                         v = ("task-modified", f"task {n}: {diff}")
             # the other challenge is filtered with the same rule
-            oth_sel = any((f == "zz-other" or f == "type:search" or f == "tag:x") for f in flts) != exclude
+            def omatch(f, o):
+                oname, otyp, otags, _c = o
+                return f[5:] == otyp if f.startswith("type:") else (f[4:] in otags if f.startswith("tag:") else f == oname)
+
+            oth_want = [o[0] for o in OTHER if any(omatch(f, o) for f in flts) != exclude]
             oth_names = [t.name for t in c_other.schedule]
-            if v is None and oth_names != (["zz-other"] if oth_sel else []):
-                v = ("other-challenge-not-filtered", f"second challenge has {oth_names}, selected={oth_sel}")
+            if v is None and oth_names != oth_want:
+                v = ("other-challenge-not-filtered", f"second challenge has {oth_names}, expected {oth_want}")
         if v is None and c_main.schedule:
             a = sc.check_allocator(c_main.schedule)
             if a:
@@ -224,36 +240,36 @@ def check_raced(spec, flts, exclude, res):
 
     schedule = []
     for el in spec:
-        schedule.append(leaf(el[0]) if len(el) == 1 else track.Parallel([leaf(n) for n in el]))
+        schedule.append(leaf(el[0]) if len(el) == 1 else track.Parallel([leaf(n) for n in names(el)]))
     ch_ = track.Challenge("c", default=True, schedule=schedule)
     trk = track.Track(name="verif", challenges=[ch_])
     cfg = config.Config()
     vflts = [f.replace("type:", "type:v-") for f in flts]
     cfg.add(config.Scope.application, "track", "exclude.tasks" if exclude else "include.tasks", vflts)
     loader.TaskFilterTrackProcessor(cfg).on_after_load_track(trk)
-    sel = {n: any(matches(f, n) for f in flts) != exclude for el in spec for n in el}
+    sel = {n: any(matches(f, n) for f in flts) != exclude for el in spec for n in names(el)}
     v = None
-    names = []
+    seen_names = []
     if ch_.schedule:
         r = racesim.run_race(ch_.schedule, ["localhost"], 2, lambda entry: {"service_time": 0.25, "body": {}}, explore.Chooser(()), horizon=300.0)
-        names = [n for _t, n, _m in r.received]
+        seen_names = [n for _t, n, _m in r.received]
         ran = {}
         for en in r.log:
             ran.setdefault(en["target"].split("/")[2], set()).add(int(en["target"].split("/")[3]))
         if r.handler_errors:
             v = ("race-handler-raises", f"{r.handler_errors[0][:2]}: {r.handler_errors[0][2][-200:]}")
         elif r.phase != "complete":
-            v = ("filtered-track-not-runnable", f"race ended in phase {r.phase} (status {r.status}); race control saw {names}")
+            v = ("filtered-track-not-runnable", f"race ended in phase {r.phase} (status {r.status}); race control saw {seen_names}")
         else:
             want = {n: set(range(LEAVES[n][3])) for n, s_ in sel.items() if s_}
             if ran != want:
                 v = ("filtered-race-runs-other-tasks", f"tasks/clients that issued requests {ran}, selected {want}")
     res.case(
-        case_repr={"raced": True, "schedule": [list(e_) for e_ in spec], "filters": list(flts), "mode": "exclude" if exclude else "include", "race_control_saw": names}
+        case_repr={"raced": True, "schedule": [list(e_) for e_ in spec], "filters": list(flts), "mode": "exclude" if exclude else "include", "race_control_saw": seen_names}
         if res.sample_now(101)
         else None,
         nontrivial_key=("race", repr(spec), flts, exclude),
-        outcome_key=("race", v[0] if v else "ok", len(names)),
+        outcome_key=("race", v[0] if v else "ok", len(seen_names)),
     )
     if v:
         res.violation(f"filter:{v[0]}:{'exclude' if exclude else 'include'}",
